@@ -162,6 +162,9 @@ def drive_and_validate(prop, tier, seed, job, res, nshards=8, cfg_view=None, bin
                 res.cov["commits"] += es.get("commits", 0)
                 res.cov["rollbacks"] += es.get("rollbacks", 0)
                 res.cov["episodes_stopped_normally"] += es.get("stopped", 0)
+                if es.get("dfs_nodes"):
+                    res.cov["exhaustive_walk_nodes"] = res.cov.get("exhaustive_walk_nodes", 0) + es["dfs_nodes"]
+                    res.cov["exhaustive_walk_episodes"] = res.cov.get("exhaustive_walk_episodes", 0) + 1
             else:
                 res.cov["episodes_skipped"] += 1
         for rj in tot["rejects"]:
